@@ -82,12 +82,6 @@ func digestBytes(b []byte) (int, uint64) {
 	return len(b), h
 }
 
-func b2i(b bool) int {
-	if b {
-		return 1
-	}
-	return 0
-}
 
 func init() {
 	onReset(func() { cartM = nil })
